@@ -45,7 +45,9 @@ RULE = (
     "type, hostile field / type names, valid controls) through constructor, descriptor frame and JSON line in child "
     "interpreters started with -O, -OO, PYTHONOPTIMIZE=1/2, -I -B, -I -B -O, -X dev, other PYTHONHASHSEEDs: accepted => in "
     "the grammar, reported == delivered, no module named by a refused definition appears in sys.modules, no tripwire file; a "
-    "failing child is inconclusive.  Seeded part: random single-character mutations of valid "
+    "failing child is inconclusive.  Length boundaries: valid prefixes of 254/255/256/257/511/512/1023/1024/65535/65536 characters followed "
+    "by each hostile suffix class (non-ASCII letter, separators, newline, quotes, NUL, code text aimed at the class statement / dict "
+    "display) and fully valid names of those lengths, as type name (whole / per segment), field name and field type on every path.  Seeded part: random single-character mutations of valid "
     "identifiers at random positions of random definitions, and random grammar-valid definitions (vacuity control).  A case is "
     "non-trivial when the delivery ran to an accept/reject outcome; distinct = distinct (definition fingerprint, path).  Oracle "
     "(one-directional): accepted => definition is in the hand-written reference grammar; for accepted definitions __slots__ == "
@@ -111,6 +113,15 @@ def build_pools(trip):
     }
     for site, lst in pay.items():
         pools["pay_" + site] = list(lst)
+    # LENGTH boundaries: a valid prefix of a boundary length followed by each hostile suffix class (a check that looks
+    # at a bounded part of a name only sees the prefix), and fully valid names of those lengths
+    lengths = (254, 255, 256, 257, 511, 512, 1023, 1024, 65535, 65536)
+    suffixes = ["\u00e9", ".", "/x-", "\n", "\nb", "'", '"', " ", "-", "\x00", "\uff11", "=1", ")"]
+    pools["lenb"] = [("a" * n if n % 2 else "Ab_9" * (n // 4) + "a" * (n % 4)) + sfx for n in lengths for sfx in suffixes]
+    pools["lenb_valid"] = ["a" * n for n in lengths] + ["Zz_0" * (n // 4) + "q" * (n % 4) for n in lengths]
+    code = [e[1:] for e in pay["class"][:3] if e.startswith("x")] + [" if 0 else %s or _field_class, 'q': _field_class" % ("open(%r,'w').close()" % trip)] \
+        + [e[1:] for e in pay["dict"][:1] if e.startswith("x")] + [e[1:] for e in pay["cr"][:2] if e.startswith("x")]
+    pools["lenb_code"] = ["a" * n + c for n in (255, 256, 512, 1024, 65536) for c in code]
     wl = H.PINNED_WHITELIST
     # invalid type strings DERIVED from valid ones: stacked list forms, prefixes of dotted paths, near misses
     pools["stacked"] = [w + "[][]" for w in wl] + [w + "[][][]" for w in wl[::4]]
@@ -125,8 +136,15 @@ def build_pools(trip):
 
 
 STRING_POOLS = ("near", "uni", "kw", "soft", "vocab", "long", "reserved", "pay_class", "pay_args", "pay_assign", "pay_dict", "pay_tuple",
-                "pay_cr", "pay_nows")
-_POOL_SIZES = {k: len(v) for k, v in build_pools(_DUMMY_TRIP).items()}
+                "pay_cr", "pay_nows", "lenb", "lenb_valid", "lenb_code")
+_DUMMY_POOLS = build_pools(_DUMMY_TRIP)
+_POOL_SIZES = {k: len(v) for k, v in _DUMMY_POOLS.items()}
+BIG_VIAS = ("api", "api-gen", "api-unpack", "stream", "json", "avro-doc", "api-text", "stream-nil")
+
+
+def _big(pool, i):
+    """Very long strings (tens of thousands of characters) go through a representative subset of the paths only."""
+    return len(_DUMMY_POOLS[pool][i]) > 5000
 
 
 def setup(ctx):
@@ -214,7 +232,7 @@ def _enum_recipes():
     for i in range(_POOL_SIZES["tname"]):
         out.append({"k": "enum", "slot": "name", "pool": "tname", "i": i, "var": "whole"})
         out.append({"k": "enum", "slot": "name", "pool": "tname", "i": i, "var": "whole0"})
-    for pool in ("ftype", "pay_class", "pay_dict", "near", "uni", "stacked", "prefix", "near_types"):
+    for pool in ("ftype", "pay_class", "pay_dict", "near", "uni", "stacked", "prefix", "near_types", "lenb", "lenb_code"):
         for i in range(_POOL_SIZES[pool]):
             for lst in (False, True):
                 out.append({"k": "enum", "slot": "type", "pool": pool, "i": i, "list": lst})
@@ -242,6 +260,8 @@ def _grouped_recipes():
     for pool in STRING_POOLS + ("tname", "affix"):
         for i in range(_POOL_SIZES[pool]):
             for var in ("whole", "last"):
+                if pool.startswith("lenb") and _big(pool, i) and var == "last":
+                    continue
                 out.append({"k": "grouped", "pool": pool, "i": i, "var": var, "bin": (i + len(out)) % 3 == 0})
     for j in range(32):
         out.append({"k": "grouped", "pool": None, "i": j, "var": "valid", "bin": j % 2 == 1})
@@ -249,6 +269,12 @@ def _grouped_recipes():
 
 
 def vias_for(recipe):
+    if recipe["k"] == "enum" and recipe.get("pool", "").startswith("lenb") and _big(recipe["pool"], recipe["i"]):
+        if recipe["slot"] == "name" and recipe.get("var") not in ("whole", "last"):
+            return ()
+        if recipe["slot"] == "field" and recipe.get("ctx") == "plain" and recipe["pool"] != "lenb_valid":
+            return ("api", "stream", "json")
+        return BIG_VIAS
     if recipe["k"] == "enum":
         slot = recipe["slot"]
         if recipe.get("warm"):
